@@ -16,7 +16,7 @@ from sa.guards import GuardView
 from sa.index import AnalysisError
 from sa.report import Ctx
 from sa.stutter import flag_loops_without_exit, stutter_paths
-from sa.undefined import implicit_none_paths, optional_truthiness, possibly_undefined, stride_conflicts, undefined_names, uninitialised_fields
+from sa.undefined import implicit_none_paths, iterables_consumed_twice, optional_truthiness, possibly_undefined, stride_conflicts, undefined_names, uninitialised_fields
 
 HERE = os.path.dirname(os.path.dirname(os.path.abspath(__file__)))
 
@@ -364,6 +364,17 @@ def generic_sweeps(ctx: Ctx, stutter: bool = True, skip_stutter_modules: tuple =
                     n_sent += 1
                     ctx.ob(g + "9", "R41 OPTIONAL-MEANS-NONE", f, f"optional parameter `{prm.arg}` defaults to None", False, f"it defaults to the private sentinel `{d.id}`: a caller that passes None explicitly (the 'not given' value of every other optional parameter here, forwarded as such by wrappers) now has None taken as a real value", node=d)
     ctx.ob(g + "9", "R41 OPTIONAL-MEANS-NONE", None, f"no public function of the anchor files replaces None by a private sentinel as the 'not given' default ({n_opt} optional parameters default to None)", n_sent == 0, "", rel=mods[0].rel, fname="<anchor files>")
+    # R48: what may be a one-shot iterable is consumed once
+    n_twice = 0
+    for m in mods:
+        for q in sorted(m.funcs):
+            f = m.funcs[q]
+            if f.parent is not None:
+                continue
+            for nm, what, lines in iterables_consumed_twice(f.node):
+                n_twice += 1
+                ctx.ob(g + "14", "R48 ITERABLE-ONCE", f, f"`{nm}` ({what}) is consumed once", False, f"consumed at lines {lines}: a generator, map or filter object handed in (legal for the declared type) is empty the second time, so the second pass silently sees no nodes / no edges", node=f.node)
+    ctx.ob(g + "14", "R48 ITERABLE-ONCE", None, "no Iterable parameter (or iterable returned by a callback parameter) of the anchor files is consumed twice", n_twice == 0, "", rel=mods[0].rel, fname="<anchor files>")
     # R46: a numeric or state-valued optional parameter is compared with None, never tested for truthiness
     n_truthy = 0
     for m in mods:
